@@ -137,11 +137,13 @@ class Schedule:
             self._cfg = dask.config.set(scheduler="threads", num_workers=self.case["workers"])
         elif kind == "processes":
             self._cfg = dask.config.set(scheduler="processes", num_workers=min(self.case["workers"], 4))
+        elif kind == "distributed":
+            self._cfg = dask.config.set(scheduler=distributed_client(self.case["workers"]).get)
         else:
             raise ValueError(kind)
         self._cfg.__enter__()
         # spy on run (instance attribute shadows the method; the mapped lambda looks it up per call)
-        if kind != "processes":
+        if kind not in ("processes", "distributed"):  # (those evaluate a pickled copy of the object)
             inner = self.kern.run
             executed = self.executed
 
@@ -162,6 +164,95 @@ class Schedule:
         dask.local.order = self._order
         cphotang.db.from_sequence = self._from_sequence
         return False
+
+
+_CLIENTS = {}
+
+
+def distributed_client(workers):
+    """One in-process dask.distributed cluster per (worker process of the harness, thread count): the scheduler a user
+    gets after `Client(processes=False)`. Not installed as the process default, so other sub-checks are unaffected."""
+    import atexit
+    import logging
+
+    threads = 1 if workers <= 1 else (2 if workers <= 4 else 4)
+    if threads not in _CLIENTS:
+        try:
+            from distributed import Client
+        except ImportError as e:  # pragma: no cover - distributed is part of /venv on this image
+            raise HarnessError(f"dask.distributed cannot be imported: {e}")
+        logging.getLogger("distributed").setLevel(logging.ERROR)
+        import sys
+
+        path = list(sys.path)
+        c = Client(processes=False, n_workers=1, threads_per_worker=threads, dashboard_address=None, set_as_default=False)
+        sys.path[:] = path  # (starting a distributed worker appends its scratch directory: trusted base, my call - not the code under test)
+        _CLIENTS[threads] = c
+        atexit.register(c.close)
+    return _CLIENTS[threads]
+
+
+def body_two_callers(case):
+    """Two DIFFERENT batches of the same length handed to one scheduler at the same time by two user threads sharing the
+    kernel object (real threads: a smoke differential, nothing is owned here): each batch equals ITS one-at-a-time
+    evaluation bit for bit. With a dask.distributed client the two task graphs live in one scheduler, so whatever names
+    the tasks must tell the two calls apart."""
+    import threading
+
+    import dask
+
+    det, dtype = case["det"], case.get("dtype", "float32")
+    c1 = dict(case)
+    c2 = dict(case, geo=list(reversed(case["geo"])) + [case["geo"][0] + 1], energies=[x * 0.5 - 0.25 for x in case["energies"]])
+    b1, b2 = make_batch(c1), make_batch(c2)
+    cloudf = site_cloud if case.get("clouds") else None
+    want = [reference(det, *b, dtype, cloudf) for b in (b1, b2)]
+    k = kernel(det, dtype)
+    kind = case["sched"]
+    n = len(b1[0])
+    psize = n if case["psize"] == "N" else int(case["psize"])
+    from nuspacesim.simulation.eas_optical import cphotang
+
+    real = cphotang.db.from_sequence
+    cphotang.db.from_sequence = lambda seq, partition_size=None, npartitions=None: real(seq, partition_size=max(1, psize))
+    cfg = dask.config.set(scheduler=distributed_client(case["workers"]).get) if kind == "distributed" else dask.config.set(scheduler="threads", num_workers=max(2, min(case["workers"], 8)))
+    out, errs = {}, {}
+    barrier = threading.Barrier(2)
+
+    def call(name, b):
+        try:
+            barrier.wait(timeout=60)
+            out[name] = k(*b, cloudf)
+        except BaseException as e:  # noqa: BLE001 - reported below as a violation (raised by the code under test)
+            errs[name] = e
+
+    try:
+        with quiet(), cfg:
+            ts = [threading.Thread(target=call, args=(i, b)) for i, b in enumerate((b1, b2))]
+            for t in ts:
+                t.start()
+            for t in ts:
+                t.join(600)
+    finally:
+        cphotang.db.from_sequence = real
+    for i in (0, 1):
+        if i in errs:
+            raise Violation(f"batch call {i} of two simultaneous calls ({n} events each, partition size {psize}, scheduler {kind}) raised {type(errs[i]).__name__}: {errs[i]}")
+        require(i in out, f"batch call {i} of two simultaneous calls did not return (scheduler {kind})")
+        d, c = np.asarray(out[i][0]), np.asarray(out[i][1])
+        wd, wc = want[i]
+        require(d.shape == wd.shape and d.dtype == wd.dtype and c.dtype == wc.dtype, f"batch {i}: shapes / dtypes {d.shape} {d.dtype} {c.dtype} vs {wd.shape} {wd.dtype} {wc.dtype}")
+        if d.tobytes() != wd.tobytes() or c.tobytes() != wc.tobytes():
+            j = int(np.where((d != wd) | (c != wc))[0][0]) if np.any((d != wd) | (c != wc)) else 0
+            other = want[1 - i][0]
+            hint = " (that is the OTHER call's result)" if j < len(other) and d[j] == other[j] else ""
+            raise Violation(
+                f"two batch calls submitted at the same time by two threads (scheduler {kind}, {n} events each, partition size {psize}, detector {det} km, {dtype}): call {i} differs from its one-at-a-time evaluation at event {j}: {d[j]!r} vs {wd[j]!r}{hint}"
+            )
+    labels = {kind, "two_callers", "kernel_" + dtype}
+    if math.ceil(n / max(1, psize)) > 1:
+        labels.add("multi_partition")
+    return labels
 
 
 def _state(k):
@@ -481,9 +572,27 @@ SUBCHECKS = [
         parallel=False,
     ),
     SubCheck(
+        "distributed",
+        batch_strategy(260, ["distributed"]),
+        body_equal,
+        lambda labels: "multi_partition" in labels,
+        {"quick": 6, "thorough": 160},
+        doc="dask.distributed client (in-process cluster, 1/2/4 worker threads) as the scheduler: batch == one-at-a-time bit for bit; object state unchanged",
+        shrink=False,
+    ),
+    SubCheck(
+        "two_callers",
+        batch_strategy(260, ["distributed", "distributed", "threads"]).map(lambda c: dict(c, n=max(c["n"], 99))),
+        body_two_callers,
+        lambda labels: "multi_partition" in labels,
+        {"quick": 6, "thorough": 160},
+        doc="two different batches of the same length submitted at the same time by two user threads sharing one kernel object, to one dask.distributed client or one thread pool (smoke differential): each == its own one-at-a-time evaluation",
+        shrink=False,
+    ),
+    SubCheck(
         "faults",
         st.fixed_dictionaries({"pos": st.integers(0, 10**6), "fault": st.sampled_from(sorted(FAULTS))}).flatmap(
-            lambda f: batch_strategy(260, ["harness", "sync", "threads"]).map(lambda b: {**b, **f})
+            lambda f: batch_strategy(260, ["harness", "sync", "threads", "distributed"]).map(lambda b: {**b, **f})
         ),
         body_fault,
         lambda labels: "fault_after_first_partition" in labels or "multi_partition" in labels,
